@@ -74,3 +74,13 @@ def rotate(seq, seed):
         return seq
     k = seed % len(seq)
     return seq[k:] + seq[:k]
+
+
+def in_domain(art, R, Z, margin=0.0):
+    """points inside the rectangle covered by the input psi array (outside it there is no
+    equilibrium data: the interpolants extrapolate and no property says anything there)"""
+    inp = art.inputs
+    R1, Z1 = inp["R1D"], inp["Z1D"]
+    with np.errstate(invalid="ignore"):
+        return ((R >= R1[0] + margin) & (R <= R1[-1] - margin) & (Z >= Z1[0] + margin)
+                & (Z <= Z1[-1] - margin))
